@@ -21,6 +21,7 @@ import (
 
 	"github.com/TarsCloud/TarsGo/tars"
 	"github.com/TarsCloud/TarsGo/tars/protocol/codec"
+	"github.com/TarsCloud/TarsGo/tars/protocol/res/basef"
 	"github.com/TarsCloud/TarsGo/tars/protocol/res/requestf"
 )
 
@@ -65,7 +66,7 @@ func (g *c15Gate) serve(c net.Conn) {
 			code := g.code
 			delay := g.delay
 			g.mu.Unlock()
-			if !answer {
+			if !answer || req.CPacketType == basef.TARSONEWAY { // nobody waits for an answer to a one-way request
 				continue
 			}
 			if delay > 0 { // slow endpoint: the answer leaves after the caller's deadline
@@ -196,7 +197,11 @@ func (r *c15Run) e2eCall(op *c15Op, last bool) []string {
 	c15LastMsg.msg = nil
 	c15LastMsg.mu.Unlock()
 	var resp requestf.ResponsePacket
-	err := r.sp.TarsInvoke(context.Background(), 0, "ping", nil, nil, nil, &resp)
+	cType := byte(basef.TARSNORMAL)
+	if op.OneWay {
+		cType = byte(basef.TARSONEWAY)
+	}
+	err := r.sp.TarsInvoke(context.Background(), cType, "ping", nil, nil, nil, &resp)
 	c15LastMsg.mu.Lock()
 	msg := c15LastMsg.msg
 	c15LastMsg.mu.Unlock()
@@ -217,6 +222,18 @@ func (r *c15Run) e2eCall(op *c15Op, last bool) []string {
 	// the outcome in the property's terms: was the call ANSWERED (whatever the return code of the answer)?
 	// doInvoke replaces msg.Resp by the received packet exactly when a reply arrived before the deadline.
 	ok := msg.Resp != nil && msg.Resp != &resp
+	if op.OneWay {
+		// a one-way call awaits nothing: it either fails at Send (the caller gets the error: a failed call like any other)
+		// or is handed to the transport
+		if ok {
+			r.fail("failover/one-way-call-answered", "a one-way call came back with a reply packet")
+		}
+		ok = err == nil
+		r.classes["one-way"] = true
+		if !ok {
+			r.classes["one-way-send-failed"] = true
+		}
+	}
 	if err == nil && !ok {
 		r.fail("failover/call-ok-without-answer", "the call returned no error although no reply was received")
 	}
@@ -240,7 +257,13 @@ func (r *c15Run) e2eCall(op *c15Op, last bool) []string {
 		sel = fmt.Sprintf("SelProbe %d", ai)
 	}
 	labels := fmt.Sprintf("%s; Out %d %s %s", sel, ai, coqBool(ok), coqBool(probe))
-	if !ok {
+	if op.OneWay && ok {
+		labels = fmt.Sprintf("%s; Sent %d %s", sel, ai, coqBool(probe))
+		if probe {
+			r.classes["one-way-probe"] = true
+		}
+	}
+	if !ok && !op.OneWay {
 		// slow endpoint: wait for the answer that leaves after the deadline, give Recv time to find no waiter; in the
 		// model a late reply is a label without effect (if it had one here, this and later observations differ)
 		g := c15Gates[sh.eid]
@@ -263,10 +286,13 @@ func (r *c15Run) e2eCall(op *c15Op, last bool) []string {
 		}
 	}
 	op.Txt = fmt.Sprintf("real call -> adapter %d endpoint %d probe=%v answered=%v err=%v", ai, sh.eid, probe, ok, err != nil)
-	if ok && !c15Gates[sh.eid].has(msg.Req.IRequestId) {
+	if op.OneWay {
+		op.Txt = fmt.Sprintf("real one-way call -> adapter %d endpoint %d probe=%v sent=%v", ai, sh.eid, probe, ok)
+	}
+	if !op.OneWay && ok && !c15Gates[sh.eid].has(msg.Req.IRequestId) {
 		r.fail("failover/answer-from-another-server", fmt.Sprintf("the call was answered, the selected adapter belongs to endpoint %d, but that server never read request %d", sh.eid, msg.Req.IRequestId))
 	}
-	if probe && ok {
+	if probe && ok && !op.OneWay {
 		// the reinstating goroutine: reset, then addAliveEp (its last action appends to activeEp)
 		deadline := time.Now().Add(3 * time.Second)
 		done := false
@@ -323,6 +349,15 @@ func (b *c15B) code(e int, c int64) { b.ops = append(b.ops, c15Op{K: "code", E: 
 
 func c15E2EGenOne(rng *rand.Rand, i int) c15Case {
 	b := &c15B{rng: rng}
+	// traffic mix: two-way only / one-way and two-way mixed / one-way only (notification-style client)
+	switch rng.Intn(10) {
+	case 0, 1, 2:
+		b.ow = 0.4
+		b.name = "mixed-oneway "
+	case 3, 4:
+		b.ow = 1
+		b.name = "oneway-only "
+	}
 	n := 1 + rng.Intn(3)
 	perm := rng.Perm(c15Universe)
 	b.refresh(perm[:n])
@@ -514,6 +549,48 @@ func c15E2ECorpus() []c15Case {
 			b.check()
 			b.call(0, 0, false)
 			b.call(0, 0, false)
+		})
+	}
+	// one-way traffic (only, and mixed with two-way) against an endpoint that refuses connections: a call that fails at
+	// Send is a failed call whatever its packet type; the dead endpoint leaves rotation
+	for _, mix := range []int{1, 2, 3} {
+		mix := mix
+		name := "e2e-oneway-dead-endpoint(one-way only)"
+		if mix > 1 {
+			name = fmt.Sprintf("e2e-oneway-dead-endpoint(every %d. call two-way)", mix)
+		}
+		mk(name, func(b *c15B) {
+			k := 0
+			call := func() {
+				k++
+				b.call(0, 0, false)
+				if mix == 1 || k%mix != 0 {
+					b.ops[len(b.ops)-1].OneWay = true
+				}
+			}
+			b.refresh([]int{0, 1})
+			for i := 0; i < 8; i++ {
+				call()
+			}
+			b.net(1, false)
+			for i := 0; i < 13; i++ {
+				call()
+			}
+			b.adv(5)
+			b.check() // endpoint 1 is out
+			for i := 0; i < 4; i++ {
+				call()
+			}
+			b.net(1, true)
+			b.adv(30)
+			b.check()
+			call() // the probe; if one-way: handed to the transport, no answer, stays blocked
+			call()
+			b.adv(30)
+			b.check()
+			b.call(0, 0, false) // a two-way probe (if one is queued) is answered: back
+			b.call(0, 0, false)
+			b.check()
 		})
 	}
 	// slow, not dead: after good calls every answer of endpoint 1 leaves after the caller's deadline
